@@ -95,7 +95,7 @@ pub fn check_typed(h: &CaseH, b: &Bld) -> Verdict {
             };
             vensure!(ps.floor == fl.name, "C18:typed:space-parent", "space {:?}: floor {:?} expected, {:?} parsed", s.name, fl.name, ps.floor);
             vensure!(ps.stype == s.stype && feq(ps.x, s.x) && feq(ps.y, s.y) && feq(ps.angle_with_building_north, s.azimuth), "C18:typed:space", "space {:?}: type/x/y/azimuth {} {} {} {} written, {} {} {} {} parsed", s.name, s.stype, s.x, s.y, s.azimuth, ps.stype, ps.x, ps.y, ps.angle_with_building_north);
-            vensure!(feq(ps.height, fl.height) && feq(ps.z, fl.z) && feq(ps.floor_multiplier, fl.multiplier.unwrap_or(1.0)) && feq(ps.multiplier, s.multiplier), "C18:typed:space-floor-data", "space {:?}: height/z/multipliers ({}, {}, {:?}, {}) expected from its storey, parsed ({}, {}, {}, {})", s.name, fl.height, fl.z, fl.multiplier, s.multiplier, ps.height, ps.z, ps.floor_multiplier, ps.multiplier);
+            vensure!(feq(ps.height, fl.height) && feq(ps.z, fl.z + s.z) && feq(ps.floor_multiplier, fl.multiplier.unwrap_or(1.0)) && feq(ps.multiplier, s.multiplier), "C18:typed:space-floor-data", "space {:?}: height/z/multipliers ({}, {}, {:?}, {}) expected from its storey (z: storey + own Z), parsed ({}, {}, {}, {})", s.name, fl.height, fl.z + s.z, fl.multiplier, s.multiplier, ps.height, ps.z, ps.floor_multiplier, ps.multiplier);
             let inside = s.insidete.unwrap_or(s.stype == "CONDITIONED");
             vensure!(ps.insidete == inside, "C18:typed:space-default", "space {:?}: envelope flag {:?} written, type {}, parsed {} (documented: from TYPE when the flag is absent)", s.name, s.insidete, s.stype, ps.insidete);
             let sc = s.space_conds.map(|c| b.space_conds[pick(c, b.space_conds.len())].name.clone()).unwrap_or_else(|| "Residencial".to_string());
@@ -567,7 +567,8 @@ fn print_tbl(c: &TblCase) -> String {
 
 fn check_tbl(h: &CaseH, c: &TblCase) -> Verdict {
     let text = print_tbl(c);
-    let dir = std::path::Path::new("/verif/target/tmp");
+    let dir = crate::engine::target_dir().join("tmp");
+    let dir = dir.as_path();
     let _ = std::fs::create_dir_all(dir);
     let path = dir.join(format!("c18-{}-{:x}.tbl", std::process::id(), crate::engine::fnv64(format!("{:?}{:?}", std::thread::current().id(), fp(c)).as_bytes())));
     if std::fs::write(&path, &text).is_err() {
